@@ -235,19 +235,36 @@ func mAccumulator(t *Term) bool {
 	if !ok {
 		return false
 	}
-	for _, e := range phi.Edges {
-		b, ok := e.(*ssa.BinOp)
-		if !ok || b.Op != token.ADD {
-			continue
+	// the phis that feed phi through phi edges only (loop header and merge points of one variable)
+	group := map[ssa.Value]bool{phi: true}
+	work := []*ssa.Phi{phi}
+	for len(work) > 0 {
+		p := work[len(work)-1]
+		work = work[:len(work)-1]
+		for _, e := range p.Edges {
+			if q, ok := e.(*ssa.Phi); ok && !group[q] {
+				group[q] = true
+				work = append(work, q)
+			}
 		}
-		other := b.Y
-		if b.Y == ssa.Value(phi) {
-			other = b.X
-		} else if b.X != ssa.Value(phi) {
-			continue
-		}
-		if _, isConst := other.(*ssa.Const); !isConst {
-			return true
+	}
+	for v := range group {
+		for _, e := range v.(*ssa.Phi).Edges {
+			b, ok := e.(*ssa.BinOp)
+			if !ok || b.Op != token.ADD {
+				continue
+			}
+			other := b.Y
+			switch {
+			case group[b.X]:
+			case group[b.Y]:
+				other = b.X
+			default:
+				continue
+			}
+			if _, isConst := other.(*ssa.Const); !isConst {
+				return true
+			}
 		}
 	}
 	return false
